@@ -458,7 +458,8 @@ def r4_published(ck, F, tag, enc, census):
                 continue
             d = [c for c in p.conds if c[0] == ("discr", ("field", ("arg", 1), "0"))]
             if len(d) == 1:
-                rows[d[0][1]] = sw[0][2][1]
+                # `match` gives arms 0/1; `if let Some(..) = level {..} else {..}` gives arm 1 and an otherwise edge
+                rows[1 if d[0][1] == 1 else 0] = sw[0][2][1]
         v_none, v_some = rows.get(0), rows.get(1)
         if not rows:
             # the encoding delegated to the module's own helper: set_max stores filter_as_usize(&self.0); take the table
